@@ -269,7 +269,7 @@ impl<'a> Lexer<'a> {
     #[allow(dead_code)]
     pub fn seek_newline(&mut self) -> Substr{
         let start = self.pos;
-        while self.buf[self.pos] != b'\n' 
+        while self.buf.get(self.pos).map_or(false, |&b| b != b'\n')
             && self.incr_pos() { }
         self.incr_pos();
 
@@ -340,7 +340,7 @@ impl<'a> Lexer<'a> {
 
     #[inline]
     fn incr_pos(&mut self) -> bool {
-        if self.pos >= self.buf.len() - 1 {
+        if self.pos >= self.buf.len().saturating_sub(1) {
             false
         } else {
             self.pos += 1;
